@@ -1120,22 +1120,11 @@ private:
         }
       }
 
-      // look for the next close bracket
+      // look for the next close bracket. Inside a replacement field the first close bracket ends
+      // the field, a following "}}" is escaped text after it
       size_t close_bracket_pos = fmt_template.find_first_of('}', open_bracket_pos + 1);
       while (close_bracket_pos != std::string::npos)
       {
-        // found closed bracket
-        if (size_t const close_bracket_2_pos = fmt_template.find_first_of('}', close_bracket_pos + 1);
-            close_bracket_2_pos != std::string::npos)
-        {
-          // found another open bracket
-          if ((close_bracket_2_pos - 1) == close_bracket_pos)
-          {
-            close_bracket_pos = fmt_template.find_first_of('}', close_bracket_2_pos + 1);
-            continue;
-          }
-        }
-
         // construct a fmt string excluding the characters inside the brackets { }
         std::string_view const text_inside_placeholders =
           fmt_template.substr(open_bracket_pos + 1, close_bracket_pos - (open_bracket_pos + 1));
